@@ -28,6 +28,18 @@ CLAIMED = {
  "C08": ("fault_enumeration", "4.4, 5 C08", "crash-point enumeration over recorded bolt file images (deterministic simulation with fault injection)",
          "For each seeded life-cycle script every commit boundary is restarted from (exhaustive per script), plus states inside commits that bolt's write order can leave (ordered prefixes and subsets of dirty data pages, torn pages, torn meta page); restart runs the real start-up sequence with/without forced verification and reset, must return within one simulated hour (deadlocks are detected on the fake clock), must pass CheckDatabase, and after re-delivery of the script the logical database content must equal the never-crashed twin's.",
          "Disk model: ordered-prefix within the data phase, data phase strictly before the meta page (bolt's fdatasync order), file grown before pages are written. Crash during bolt's initial 4-page file creation is not modelled (stated in DESIGN). Follower node; scripts of 1-12 blocks."),
+ "C17": ("exploration", "4.3, 5 C17", "seeded wallet operation histories with reload/lock faults, metamorphic one-batch oracle",
+         "Deterministic, bip44 (with/without passphrase, external and change chain) and xpub wallets are driven through generate/scan/serialise+reload/lock+unlock sequences; after every step the entries must equal those of a fresh wallet that generated the same total in one batch, scanning must keep exactly the prefix up to the last active address, every entry must satisfy address=addr(pubkey) and pubkey=pub(seckey) under the harness' own curve code, and an xpub wallet must equal the external chain of the bip44 wallet of the same seed.",
+         "Collection wallets have no derivation (only the entry-consistency part applies, exercised in C18/C19 runs). Real key generation with the repository's debug self-checks on is slow (~1 s per run), so quick runs are few."),
+ "C18": ("exploration", "4.3, 5 C18", "simulated-disk content invariant plus stored-byte corruption (bit-rot fault injection)",
+         "For each seeded wallet and cipher: the locked serialisation and every byte string handed to the simulated disk while locked must not contain the seed, last seed, passphrase or any secret key (hex or raw); unlock with the password restores the identical wallet, three wrong passwords are rejected; then the stored secrets field is corrupted (bit flips, truncation, length-prefix edits, metadata edits, emptying) and load+unlock must return an error, never panic or yield different secrets.",
+         "Partial: the whole space of ciphertext byte strings is a pure-input claim; corruptions whose scrypt parameters would allocate > 64 MiB are skipped and counted. Default scrypt work factor not exercised (1 GiB)."),
+ "C19": ("exploration", "4.3, 5 C19", "seeded wallet-service histories with injected disk errors; memory vs. fresh-service reload after every step",
+         "After every operation of a seeded service history (all operation kinds, wrong passwords, unknown ids, failing callbacks, duplicate seeds, temporary wallets; in half the runs a short-write disk error at a drawn step of a save) a fresh NewService on the directory must start and load exactly the non-temporary wallets held in memory, a failed operation must leave memory and the wallet files unchanged, and no two loaded wallets may share a fingerprint.",
+         "One recorded known finding (create/unload/create of one seed leaves two files with one fingerprint). Unload is read as memory-only."),
+ "C20": ("fault_enumeration", "4.3, 5 C20", "crash-prefix enumeration over the recorded file operations of every save",
+         "For every wallet-service or key-value-storage operation that touches the disk, every prefix of the primitive file operations it issued (before each step, after open(O_TRUNC), writes cut at 1 / half / len-1 / a drawn offset, after each step, rename as one step) is materialised and a fresh service/manager must start on it and load, for every file, the previous or the new content.",
+         "Ordered-write crash model as in the statement (no reordering across steps, rename atomic); effects of un-seamed calls (IsWritable) are captured by the directory snapshot at the first seamed step. The peers file uses the same SaveBinary path but is exercised only via kvstorage/wallet here."),
 }
 
 NA = {
@@ -78,9 +90,11 @@ def main():
     json.dump(m, open(os.path.join(V, "MANIFEST.json"), "w"), indent=1)
     print("claimed", len(checks), "not_applicable", len(NA))
 
-ENGINE = {"C08": "e4 (in e1 binary)"}
-ADD_ONLY = True
+ENGINE = {"C08": "e4 (in e1 binary)", "C17": "e3", "C18": "e3", "C19": "e3", "C20": "e3"}
+ADD_ONLY = False  # H7 rewrites three call sites in util/file.SaveBinary (ioutil.WriteFile/os.Remove -> fsWriteFile/fsRemove)
 ENGINES = [
+ dict(name="e3", path="/verif/harness/e3", serves_properties=["C17", "C18", "C19", "C20"],
+      kind_free_text="wallet service, wallet types and key-value storage on a simulated disk (hook H7): operation histories, disk-error injection, crash-prefix enumeration, bit-rot"),
  dict(name="e1", path="/verif/harness/e1", serves_properties=["C01", "C02", "C03", "C04", "C05", "C06", "C07", "C08"],
       kind_free_text="single-goroutine discrete-event simulation of 1-3 real visor+bolt nodes on the synctest fake clock, shadowed by the reference ledger model"),
 ]
